@@ -148,51 +148,39 @@ def run(E: Engine, rep: Report, tier: str) -> dict:
     rep.floor("SIB", 5)
 
     # ------------------------------------------------- SIB: the unflipped sample is returned only when no bit can flip
-    def zero_rates(conj) -> set:
-        out = set()
-        for l in conj:
-            if l.atom is None or l.atom.rel != "Eq":
-                continue
-            try:
-                c = ast.parse(l.text, mode="eval").body
-            except SyntaxError:
-                continue
-            if not (isinstance(c, ast.Compare) and len(c.ops) == 1):
-                continue
-            for a, b in ((c.left, c.comparators[0]), (c.comparators[0], c.left)):
-                if isinstance(b, ast.Constant) and isinstance(b.value, (int, float)) and not isinstance(b.value, bool) and b.value == 0:
-                    out.add(rate_name_of(a))
-        return out
+    from .. import sym
+    from .symutil import S, branches, dnf, is_, mentions, sh
 
-    def rate_name_of(e: ast.AST) -> str:
-        if isinstance(e, ast.Subscript) and isinstance(e.slice, ast.Constant):
-            return str(e.slice.value)
-        if isinstance(e, ast.Attribute):
-            return e.attr
-        if isinstance(e, ast.Name):
-            return e.id
-        return norm(e)
+    def rate_of(t) -> str:
+        if t[0] == "idx" and t[2][0] == "const":
+            return str(t[2][1])
+        if t[0] == "attr":
+            return t[2]
+        if t[0] == "name":
+            return t[1]
+        return sym.show(t)
 
     for f, neg, pos in ((s1, "epsilon_prime", "epsilon"), (s2, "p_false_neg", "p_false_pos")):
-        flip = [n for n in own_nodes(f) if isinstance(n, ast.Call) and (dotted(n.func) or "").endswith("where") and len(n.args) == 3]
-        if not flip:
+        r = S(E, f).ret
+        alts = list(branches(r))
+        flipped = [a for a in alts if any(x[0] == "call" and x[1][0] == "attr" and x[1][2] == "where" for x in sym.subterms(a[1]))]
+        plain = [a for a in alts if a not in flipped and a[1][0] != "raise"]
+        if not flipped:
             continue  # reported above
-        first = min(n.lineno for n in flip)
-        ab = abstractor(E.flow(f))
-        early = [r for r in returns(f) if r.lineno < first]
-        for r in early:
-            dnf = ab.enclosing_conditions(r)
-            bad = None
-            for conj in dnf:
-                none_guard = any((" is None" in l.text and "meas_errors" in l.text and (l.atom is not None and l.atom.rel == "Is")) for l in conj)
-                if none_guard:
+        bad = None
+        for conds, _leaf in plain:
+            for conj in dnf(sym.mk_and(conds)):
+                if any(is_(x, "Q_m is None") is not None and mentions(is_(x, "Q_m is None")["Q_m"], "_meas_errors", "meas_errors") for x in conj):
                     continue
-                z = zero_rates(conj)
-                if not {neg, pos} <= z:
-                    bad = " and ".join(l.show() if l.atom is None else l.text for l in conj) or "<unconditional>"
-                    break
-            rep.check(bad is None, "SIB", f"{f.short}|unflipped-return-needs-both-rates-zero", f"`{norm(r)[:60]}` (before the flip) is reached only when {neg} == 0 and {pos} == 0 (or no detection errors are configured)",
-                      f"{f.short}: the sample is returned without flipping any bit on the path [{bad}] -- that does not imply both {pos} == 0 and {neg} == 0, so a configured detection error is silently ignored", E.where(f, r))
+                zeros = set()
+                for x in conj:
+                    m = is_(x, "Q_r == 0")
+                    if m is not None:
+                        zeros.add(rate_of(m["Q_r"]))
+                if not {neg, pos} <= zeros:
+                    bad = " and ".join(sh(x, 70) for x in conj) or "<unconditional>"
+        rep.check(bad is None and bool(plain), "SIB", f"{f.short}|unflipped-return-needs-both-rates-zero", f"the unflipped sample is returned only when {neg} == 0 and {pos} == 0 (or no detection errors are configured)",
+                  f"{f.short}: the sample is returned without flipping any bit on the path [{bad}] -- that does not imply both {pos} == 0 and {neg} == 0, so a configured detection error is silently ignored", E.where(f))
     rep.floor("SIB", 7)
 
     # ------------------------------------------------- WEIGHT: Monte-Carlo accumulation weights every run by its multiplicity
